@@ -8,7 +8,11 @@ import (
 )
 
 // MonC08: rollouts never archive or delete what is still serving.
-type MonC08 struct{ BaseMon }
+type MonC08 struct {
+	BaseMon
+	// incoming revisions as of the archive decision: archived set uid -> (revision name -> listed keys)
+	incoming map[string]map[string]map[string]bool
+}
 
 func (m *MonC08) ID() string { return "C08" }
 
@@ -96,6 +100,16 @@ func (m *MonC08) OnReq(w *World, r *Req) {
 			}
 			m.touch()
 			k := r.Key()
+			if rec, ok := m.incoming[store.Str(set, "metadata", "uid")]; ok {
+				// judged against the revisions that were incoming when the archive decision was taken
+				var kept []store.Obj
+				for _, n := range incoming {
+					if _, in := rec[store.Str(n, "metadata", "name")]; in {
+						kept = append(kept, n)
+					}
+				}
+				incoming = kept
+			}
 			for _, newest := range incoming {
 				for _, so := range SpecObjects(newest, w.sliceLookup(newest)) {
 					soCluster := "mgmt"
@@ -160,6 +174,19 @@ func (m *MonC08) OnReq(w *World, r *Req) {
 				Msg: fmt.Sprintf("pass %d archived %s, the newest revision", p.ID, r.Name)})
 			return
 		}
+		if m.incoming == nil {
+			m.incoming = map[string]map[string]map[string]bool{}
+		}
+		rec := map[string]map[string]bool{}
+		for _, n := range sets[xi+1:] {
+			if CondTrue(n, "Available") {
+				rec[store.Str(n, "metadata", "name")] = specKeys(w, n)
+			}
+		}
+		if len(rec) == 0 {
+			rec[store.Str(sets[xi+1], "metadata", "name")] = specKeys(w, sets[xi+1])
+		}
+		m.incoming[store.Str(x, "metadata", "uid")] = rec
 		for _, n := range sets[xi+1:] {
 			if CondTrue(n, "Available") {
 				w.Stats.Probe("c08-archive/newer-available")
